@@ -119,14 +119,16 @@ var vxDisplays = []string{
 // position of x-i too: the resulting tree is well formed and display: none generates nothing.
 func VxH_C09_wellformed() {
 	dispP := []string{"block", "flex", "inline"}
-	dispS := []string{"inline", "block", "inline-block", "flex"}
-	dispJ := []string{"block", "inline", "flex", "table", "none"}
+	dispS := []string{"inline", "block", "inline-grid", "inline-flex", "grid", "flex", "inline-block"}
+	dispI := []string{"block", "inline", "inline-block", "flex", "table", "none"}
+	dispJ := []string{"block", "inline", "table", "none"}
 	dispK := []string{"block", "inline", "table-cell", "none"}
-	nP, nS, nI, nK := 2, 3, 9, 3
+	nP, nS, nK := 2, 6, 2
 	if vx.Tier() > 0 {
-		nP, nS, nI, nK = 3, 4, len(vxDisplays), 4
-		dispJ = vxDisplays
+		nP, nS, nK = 3, len(dispS), 4
+		dispI, dispJ = vxDisplays, vxDisplays
 	}
+	nI := len(dispI)
 	dp := vx.Choose("display-p", nP)
 	ds := vx.Choose("display-s", nS)
 	di := vx.Choose("display-i", nI)
@@ -136,7 +138,7 @@ func VxH_C09_wellformed() {
 	po := vx.Choose("position-i", 2)
 	css := "x-p{display:" + dispP[dp] + "} " +
 		"x-s{display:" + dispS[ds] + "} " +
-		"x-i{display:" + vxDisplays[di] + ";float:" + []string{"none", "left"}[fl] + ";position:" + []string{"static", "absolute"}[po] + "} " +
+		"x-i{display:" + dispI[di] + ";float:" + []string{"none", "left"}[fl] + ";position:" + []string{"static", "absolute"}[po] + "} " +
 		"x-j{display:" + dispJ[dj] + "} " +
 		"x-k{display:" + dispK[dk] + "} "
 	src := "<html><head><style>" + css + "</style></head><body><x-p><x-s>t<x-i></x-i>u<x-j><x-k></x-k></x-j></x-s></x-p></body></html>"
@@ -147,7 +149,7 @@ func VxH_C09_wellformed() {
 	root := vxBuild(doc)
 	vx.Reach("built")
 	vxWellFormed(root, nil)
-	if vxDisplays[di] == "none" {
+	if dispI[di] == "none" {
 		vx.Assert("display-none-generates-no-box:x-i", !vxHasTag(root, "x-i"))
 	}
 	if dispJ[dj] == "none" {
